@@ -259,6 +259,12 @@ def scalar_corpus():
                   "schema.float.min(v).max(v)", "schema.float.min(v)", "schema.float.max(v)", "schema.float(v).precision(1)",
                   "schema.float(v).precision(1).max(v)", "schema.float(v).precision(2).min(v)", "schema.float.min(v).precision(3)"):
             add(e, v, v=v)
+    # infinite bounds: satisfiable (the infinity itself, or anything on its side, conforms)
+    for v, w in ((float("inf"), float("inf")), (float("-inf"), float("-inf"))):
+        for e in ("schema.float.min(v)" if v > 0 else "schema.float.max(v)", "schema.float.max(v)" if v > 0 else "schema.float.min(v)",
+                  "schema.float.max(v).precision(2)" if v > 0 else "schema.float.min(v).precision(2)",
+                  "schema.float.min(1.0).max(v)" if v > 0 else "schema.float.max(1.0).min(v)"):
+            add(e, w if ("min(v)" in e and v > 0 and "1.0" not in e) or ("max(v)" in e and v < 0 and "1.0" not in e) else 1.0, v=v)
     # fixed floats whose product with 10**precision leaves the float range (the validator's fallback comparison)
     for v in (1e300, -1e300, 1e307, 1.7e308, float("inf"), float("-inf")):
         for e in ("schema.float(v).precision(15)", "schema.float(v).precision(2)", "schema.float(v).precision(1).min(v)",
